@@ -16,7 +16,22 @@ Open Scope N_scope.
 
 (* ---------- subscription store ---------- *)
 
-(* an Unsubscribe that removes something: under the HDEL defect it never reaches redis *)
+(* The store is keyed by the full topic name, the in-memory index by (share name, filter).
+   For the names the broker hands to the store (validated filters) the two determine each
+   other; the reload oracle is evaluated on such histories only: a subscription whose
+   (share name, filter) is the split of its full name, an UNSUBSCRIBE topic that is the
+   full name of its split. *)
+Definition canonical_op (o : op) : bool :=
+  match o with
+  | OSub _ s => let '(g, f) := split_topic (full_topic s) in str_eqb g (s_share s) && str_eqb f (s_filter s)
+  | OUnsub _ t => let '(g, f) := split_topic t in
+                  str_eqb t (if is_empty g then f else SHARE_SLASH ++ g ++ [SLASH] ++ f)
+  | OUnsubAll _ => true
+  end.
+Definition canonical_names (ops : list sop) : bool := forallb canonical_op (sops_flat ops).
+
+(* classes of the defects repaired in /repo (41101f9, 9588927, 892f3ad): false for the code as
+   it is; kept as documentation of the regression examples (Props/C09.v), not used by the check *)
 Fixpoint has_effective_unsub (sp : spec) (ops : list op) : bool :=
   match ops with
   | [] => false
@@ -29,9 +44,6 @@ Fixpoint has_effective_unsub (sp : spec) (ops : list op) : bool :=
   end.
 Definition kf_redis_hdel_slice (fx : fixes) (ops : list sop) : bool :=
   negb (fix_hdel fx) && has_effective_unsub [] (sops_flat ops).
-
-(* a client id that starts with one of the characters s,u,b,: and owns a subscription at the
-   end: its subscriptions are reloaded under the trimmed id *)
 Definition kf_redis_trimleft (fx : fixes) (ops : list sop) : bool :=
   negb (fix_trim fx) &&
   existsb (fun e => let c := fst (fst (fst e)) in negb (str_eqb (trim_left c) c)) (spec_run (sops_flat ops)).
@@ -52,7 +64,8 @@ Definition runack_ok (ops : list ruop) (outs : list (option bool)) : bool :=
      | _, _ => false
      end) [] ops outs.
 
-(* Set of an id that is stored but unknown to the store object created by the last restart *)
+(* (repaired, 892f3ad; false for the code as it is) Set of an id that is stored but unknown to
+   the store object created by the last restart *)
 Definition kf_redis_unack_reload (fx : fixes) (ops : list ruop) : bool :=
   negb (fix_unack fx) &&
   (fix go (d k : list N) (ops : list ruop) : bool :=
@@ -71,12 +84,12 @@ Definition c10r_ok (max : nat) (ifexp : N) (ops : list rqop) (outs : list oout) 
 (* ---------- classification of the redis queue's deviations from the abstract queue ----------
    The faithful model (Model/RQueue.v) is stepped together with the abstract queue; the first
    operation whose output the abstract queue rejects is classified by the situation it was
-   issued in.  Each class is one defect of persistence/queue/redis/redis.go. *)
+   issued in.  Each class is one open defect of persistence/queue/redis/redis.go.  (The classes
+   "length unknown after a restart" and "Add before the in-flight entries are replayed" were
+   repaired in /repo - 2a5e8fc, c77f89a - and are part of the oracle proper now.) *)
 Inductive rqclass :=
 | RQNone                      (* the whole trace is accepted *)
-| RQLenAfterRestart           (* Add on a fresh object (broker restart) before Init: len is 0, the bound is not enforced *)
 | RQLrangeMinus1              (* Read with no ids / ReadInflight(0) at cursor 0: LRANGE 0 -1 reads the whole list *)
-| RQAddBeforeReplay           (* Add on a full queue between Init(clean=false) and ReadInflight: in-flight entries are treated as queued (wrong victim, or panic on a PUBREL entry) *)
 | RQStaleCache                (* Remove of an id whose entry Add already sacrificed: counters and cursor move although nothing is removed *)
 | RQReplaceCursor0            (* Replace while the cursor is 0 inspects element 0 *)
 | RQOther.
@@ -86,11 +99,6 @@ Fixpoint blob_mem (b : blob) (l : list blob) : bool :=
 
 Definition rq_situation (s : rstore) (q : rq) (o : rqop) : rqclass :=
   match o with
-  | ROp (OAdd _ _) =>
-      match rq_cache q with
-      | None => RQLenAfterRestart
-      | Some _ => if negb (rq_drained q) then RQAddBeforeReplay else RQOther
-      end
   | ROp (ORead _ pids) => match pids with [] => if (rq_cur q =? 0)%Z then RQLrangeMinus1 else RQOther | _ => RQOther end
   | ROp (OReadInflight _ n) => match n with O => if (rq_cur q =? 0)%Z then RQLrangeMinus1 else RQOther | _ => RQOther end
   | ROp (ORemove pid) =>
@@ -108,7 +116,9 @@ Definition rq_situation (s : rstore) (q : rq) (o : rqop) : rqclass :=
   | _ => RQOther
   end.
 
-Fixpoint rq_classify (s : rstore) (q : rq) (a : ast) (v5 : bool) (limit : N) (ops : list rqop) : rqclass :=
+(* `seen`: an LRANGE x..-1 (Read without ids / ReadInflight(0) at cursor 0) was already executed:
+   it may set the drained flag or hand out the whole list, and a later operation is rejected *)
+Fixpoint rq_classify (s : rstore) (q : rq) (a : ast) (v5 : bool) (limit : N) (seen : bool) (ops : list rqop) : rqclass :=
   match ops with
   | [] => RQNone
   | o :: r =>
@@ -119,20 +129,23 @@ Fixpoint rq_classify (s : rstore) (q : rq) (a : ast) (v5 : bool) (limit : N) (op
         | ROp o' => (o', v5, limit)
         | ORestart => (OInit false v5 limit, v5, limit)
         end in
+      let sit := rq_situation s q o in
+      let blame := match sit with RQOther => if seen then RQLrangeMinus1 else RQOther | c => c end in
+      let seen' := seen || match sit with RQLrangeMinus1 => true | _ => false end in
       match step_ok a ao (oout_of (r_out x)) with
       | Some a' =>
           if inv_ok a' then
             match r_out x with
             | RPanic => RQNone
-            | _ => rq_classify (r_store x) (r_q x) a' v5' limit' r
+            | _ => rq_classify (r_store x) (r_q x) a' v5' limit' seen' r
             end
-          else rq_situation s q o
-      | None => rq_situation s q o
+          else blame
+      | None => blame
       end
   end.
 
 Definition rq_class (max : nat) (ifexp : N) (ops : list rqop) : rqclass :=
-  rq_classify [] (rq_new max ifexp [99]) (a_new max ifexp) false 0 ops.
+  rq_classify [] (rq_new max ifexp [99]) (a_new max ifexp) false 0 false ops.
 
 (* ====================================================================================
    PART 2: the broker level.  What the harness observed: the client steps with the journal
@@ -341,9 +354,19 @@ Definition crash_prefix_fails (names : list cid) (steps : list ostep) (p : pobs)
     let name := nth c names [] in
     let v := sview_at k c steps in
     let ob := nth c (po_clients p) {| co_sp := None; co_rx := []; co_resend := [] |} in
+    (* a re-sent QoS 2 PUBLISH must be recognised when it was received (PUBREC written) in the
+       session that is still the client's session at the crash *)
+    let same_session (pid : N) : bool :=
+      existsb (fun io => let '(n, o) := io in
+                 match os_step o with
+                 | SPublish pc qos pid' _ _ =>
+                     (pc =? c)%nat && (qos =? 2) && (pid' =? pid) && acked_by k (rx_pos pc (is_pubank pid) (os_rx o)) &&
+                     (sv_epoch (sview_before n c steps) =? sv_epoch v)%nat
+                 | _ => false
+                 end) (index_steps 0 steps) in
     let dups := flat_map (fun r => let '(pid, pushes, acked) := r in
-                                   if acked && (pushes =? 0)%nat then [] else [FDupNotRecognised c pid]) (co_resend ob) in
-    if sv_uncertain v || negb (sv_live v) || (sv_expiry v =? 0) then dups else
+                                   if negb (same_session pid) || (acked && (pushes =? 0)%nat) then [] else [FDupNotRecognised c pid]) (co_resend ob) in
+    if sv_uncertain v || negb (sv_live v) || (sv_expiry v =? 0) then [] else
     let sess := if smem name (po_sessions p) && (match co_sp ob with Some true => true | _ => false end) then [] else [FSession c] in
     let mine := map (fun e => (full_topic (snd e), snd e)) (filter (fun e => str_eqb (fst e) name) (po_subs p)) in
     let allowed (t : str) (x : option sub) : bool :=
@@ -478,6 +501,6 @@ Definition model_prefix (fx : fixes) (names : list cid) (cmds : list rcmd) (post
   match recover fx (exec_all [] cmds) with
   | None => None
   | Some b => Some (map fst (b_clients b),
-                    map (fun e => (fst (fst (fst e)), snd e)) (b_subs b),
+                    bs_entries (b_subs b),
                     post_recover fx b names posts)
   end.
